@@ -174,8 +174,8 @@ theorem c19_no_deadlock (tr : List Ev) (s : State) (h : Exec tr s) (hq : s.racy 
     ∃ e, (step s e).isSome = true := by
   have i := exec_inv h hq
   obtain ⟨ipc, spc, owner, nc, sim, snap, served, up, il, rc, ub, me⟩ := s
-  obtain ⟨h1, h2, h3, h4, h5, h6, h7, h8, h9, h10, h11, h12, h13, h14⟩ := i
-  simp only at h1 h2 h3 h4 h5 h6 h7 h8 h9 h10 h11 h12 h13 h14
+  obtain ⟨h1, h2, h3, h4, h5, h6, h7, h8, h9, h10, h11, h12, h13, h14, h15⟩ := i
+  simp only at h1 h2 h3 h4 h5 h6 h7 h8 h9 h10 h11 h12 h13 h14 h15
   cases up
   case false => exact ⟨.xStart, by simp [step]⟩
   case true =>
@@ -233,7 +233,7 @@ dereference that depends on it (i.e. not in `waitNC, wantLock, postLock, postUnl
 `racy` stays false (until the next start/stop), hence no use after free, and every theorem of this file applies -/
 theorem c19_stop_outside_iteration_is_safe (pre post : List Ev) (s0 s : State)
     (h0 : Exec pre s0) (hq0 : s0.racy = false)
-    (hout : s0.ipc ≠ .waitNC ∧ s0.ipc ≠ .wantLock ∧ s0.ipc ≠ .postLock ∧ s0.ipc ≠ .postUnlock ∧
+    (hout : s0.ipc ≠ .waitNC ∧ s0.ipc ≠ .wantLock ∧ s0.ipc ≠ .postLock ∧ s0.ipc ≠ .postUnlock ∧ s0.ipc ≠ .shotWait ∧
             ((critI s0.ipc = true ∧ s0.ilock = true) → False))
     (hr : run s0 (.xStop :: post) = some s)
     (hn1 : ∀ e ∈ post, e ≠ .xStart) (hn2 : ∀ e ∈ post, e ≠ .xStop) : s.racy = false ∧ s.memerr = false := by
@@ -334,6 +334,31 @@ theorem c19_serialisation_is_inside_the_critical_section (tr : List Ev) (s : Sta
   rcases hs with hs | hs
   · exact ⟨i.ownS.mpr (by simp [hs, critS]), i.nc.mpr (by simp [hs, ncHigh])⟩
   · exact ⟨i.ownS.mpr (by simp [hs, critS]), i.nc.mpr (by simp [hs, ncHigh])⟩
+
+/-! ### the screenshot handshake (output.c:273-323) -/
+
+/-- `reb_simulation_output_screenshot`, called from a heartbeat inside a locked iteration, gives the mutex away while it waits
+for the browser.  While the integrator waits there the step is complete: whatever the server serialises in that window is a
+step-boundary state, and the integrator does not own the mutex although its iteration is a locked one -/
+theorem c19_screenshot_wait_is_at_a_boundary (tr : List Ev) (s : State) (h : Exec tr s) (hq : s.racy = false)
+    (hw : s.ipc = .shotWait) :
+    s.sim.phase = .atBoundary ∧ s.owner ≠ some .I ∧ s.ilock = true ∧ s.srvUp = true := by
+  have i := exec_inv h hq
+  have hl := i.shotC hw
+  refine ⟨?_, ?_, hl, i.lockUp hl⟩
+  · cases hp : s.sim.phase with
+    | atBoundary => rfl
+    | inStep => have := i.stepP.mp hp; simp_all
+    | inAdjust => have := i.adjP.mp hp; simp_all [adjPc]
+  · intro ho
+    have := (i.ownI.mp ho).1
+    simp [hw, critI] at this
+
+/-- a complete iteration with a screenshot taken in its heartbeat and a `/simulation` request served meanwhile -/
+example : (run init [.xStart, .iEnter, .iChkBegin, .iChkEnd true, .iSeeSrv true, .iSeeNC0, .iLock, .iSetFlag, .iStepBegin,
+    .iStepEnd, .iShotUnlock, .sReq, .sSetNC, .sLock, .sSerBegin, .sSerEnd, .sClrNC, .sUnlock, .sSent, .sStatic,
+    .iShotLock, .iUnlock, .iClrFlag]).map (fun s => (s.ipc, s.served, s.sim, s.racy, s.owner))
+    = some (.unlocked, 1, boundary 1 1, false, none) := by decide
 
 /-! ### what an accepted trace means -/
 
